@@ -74,6 +74,7 @@ func (t *trigRec) haversine(p1, p2 orb.Point) float64 {
 	dLat2Sin := t.sin(dLat / 2)
 	dLon2Sin := t.sin(dLon / 2)
 	a := dLat2Sin*dLat2Sin + t.cos(d2r(p2[1]))*t.cos(d2r(p1[1]))*dLon2Sin*dLon2Sin
+	a = math.Min(a, 1)
 	return 2.0 * orb.EarthRadius * t.atan2(math.Sqrt(a), math.Sqrt(1-a))
 }
 
